@@ -79,6 +79,17 @@ func (env *SpecEnv) eval(e *SExpr) *Value {
 			return scalar(Not(x.S), types.Typ[types.Bool])
 		case "-":
 			return scalar(Neg(x.S), x.T)
+		case "*":
+			// *p: the cell a pointer to a non-struct value (a named map, an int, ...) points to
+			pt, ok := x.T.Underlying().(*types.Pointer)
+			if !ok {
+				specFail("* of a non-pointer")
+			}
+			if _, isStruct := pt.Elem().Underlying().(*types.Struct); isStruct {
+				c := *x
+				return &c // pointers to structs are used through their fields
+			}
+			return env.st.load(&lvalue{kind: lvHeap, T: pt.Elem(), ref: x.S, prefix: "box<" + typeName(pt.Elem()) + ">"})
 		}
 	case SBinary:
 		return env.evalBinary(e)
@@ -215,10 +226,21 @@ func (env *SpecEnv) lookupVar(name string) (*Value, bool) {
 	}
 	if env.fr != nil {
 		// function locals by name: choose the bound variable declared last
+		// (variables of the function the clause belongs to win over same-named locals that inlined callees
+		// left bound in the state)
 		var best *types.Var
+		bestIn := false
+		var sc *types.Scope
+		if env.fr.fn != nil {
+			sc = env.fr.fn.Scope()
+		}
 		for o := range env.st.vars {
 			if v, ok := o.(*types.Var); ok && v.Name() == name {
-				if best == nil || v.Pos() > best.Pos() {
+				in := sc != nil && v.Pkg() == env.fr.fn.Pkg() && sc.Pos() <= v.Pos() && v.Pos() < sc.End()
+				switch {
+				case best == nil, in && !bestIn:
+					best, bestIn = v, in
+				case in == bestIn && v.Pos() > best.Pos():
 					best = v
 				}
 			}
@@ -778,6 +800,16 @@ func (env *SpecEnv) evalCall(e *SExpr) *Value {
 			return &Value{K: VScalar, SpecKind: "mmap", T: et, S: Select(env.st.heapArr(cls, SArray(SInt, es)), x.Arr)}
 		case "bytes":
 			return &Value{K: VScalar, SpecKind: "mmap", T: types.Typ[types.Uint8], S: mkUF("bytesOf", SArray(SInt, SInt), arg(0).S)}
+		case "str":
+			// str(b): the string a []byte converts to (what Go's string(b) yields)
+			x := arg(0)
+			if x.K != VSlice {
+				specFail("str() needs a byte slice")
+			}
+			cls := elemClass(x.T.Underlying().(*types.Slice).Elem())
+			as := SArray(SInt, SInt)
+			noteClass(cls, as, false)
+			return scalar(mkUF("stringOf", SString, Select(env.st.heapArr(cls, as), x.Arr), x.Len), types.Typ[types.String])
 		case "ifaceVal":
 			x := arg(0)
 			return scalar(x.S, nil)
